@@ -133,11 +133,11 @@ def run_playback(ws, crate, name_filter, features=(), release_like=False, timeou
     return res, crashed, out
 
 
-def replay_failing_harness(ws, crate, harness, features=(), log_dir=None):
+def replay_failing_harness(ws, crate, harness, features=(), log_dir=None, gen_timeout=900):
     """-> list of dicts {test, src, file, dev:{failed,panic_at,..}, rel:{..}, role}"""
-    tests, gen_out = generate_playback_tests(ws, crate, harness, features, log_dir=log_dir)
+    tests, gen_out = generate_playback_tests(ws, crate, harness, features, timeout=gen_timeout, log_dir=log_dir)
     if not tests:
-        return [], "no playback tests generated"
+        return [], ("no playback tests generated" if isinstance(gen_out, str) and "timeout" not in gen_out[:40] else "timeout generating the playback test")
     short = harness.split("::")[-1]
     flt = "kani_concrete_playback_" + short + "_"
     dev, dev_crash, _ = run_playback(ws, crate, flt, features, False, log_dir=log_dir, tag=short)
